@@ -224,6 +224,21 @@ where
         matches!(&self.inner, State::OnDisk(_))
     }
 
+    #[cfg(pearl_verif)]
+    pub(crate) fn verif_snapshot(&self) -> Option<Vec<(Vec<u8>, Vec<RecordHeader>)>> {
+        match &self.inner {
+            State::InMemory(data) => Some(
+                data.read()
+                    .expect("rwlock")
+                    .headers
+                    .iter()
+                    .map(|(k, v)| (k.to_vec(), v.clone()))
+                    .collect(),
+            ),
+            State::OnDisk(_) => None,
+        }
+    }
+
     async fn dump_in_memory(&mut self, blob_size: u64) -> Result<usize> {
         if let State::InMemory(headers) = &self.inner {
             let headers = {
